@@ -36,7 +36,7 @@ func refSalted(seed *tls.PRNGSeed, salt string) *tls.PRNGSeed {
 func TestC30(t *testing.T) {
 	r := mon.New("C30", "seeds x (stream vs independent SHAKE-256, salted seed vs independent HKDF-SHA3-256, helper argument grid incl. boundaries); concurrent Uint64 callers checked exactly-once against the reference stream under the race detector. distinct = (seed, check kind) pairs")
 	defer r.Finish(t)
-	nSeeds := mon.Pick(5000, 100000)
+	nSeeds := mon.Pick(5000, 500000)
 	intArgs := []int{math.MinInt, -1 << 40, -2, -1, 0, 1, 2, 3, 7, 10, 255, 256, 1000, 1 << 20, 1<<31 - 1, 1 << 31, math.MaxInt}
 	rangeArgs := [][2]int{{0, 0}, {0, 1}, {5, 5}, {5, 4}, {5, -5}, {-3, 7}, {-3, -1}, {-10, -20}, {0, 1 << 30}, {7, 9}, {math.MinInt, 3}, {2, math.MaxInt - 3}, {100, 50}, {-5, 0}}
 	// every pair of extreme / boundary ints as (min, max): empty intervals whose width
@@ -216,7 +216,7 @@ func TestC30(t *testing.T) {
 	r.Count("seeds", int64(nSeeds))
 
 	// concurrency: exactly-once over the reference stream
-	rounds := mon.Pick(150, 2000)
+	rounds := mon.Pick(150, 8000)
 	for i := 0; i < rounds; i++ {
 		rg := Sub("C30conc", i)
 		var seed tls.PRNGSeed
